@@ -14,6 +14,18 @@ from . import driver
 VERIF = os.path.dirname(os.path.dirname(os.path.abspath(__file__)))
 
 
+def evidence_dir():
+    """/verif/evidence for a run on /repo.  A run pointed at a scratch copy (VERIF_REPO, used by tools/try_seeded_par.py
+    and tools/cross_seeded.py to try property-breaking changes) writes its record under .cache/ instead, so that the
+    record of a deliberately broken tree can never be committed as the evidence of the real one."""
+    if os.environ.get('VERIF_EVIDENCE_DIR'):
+        return os.environ['VERIF_EVIDENCE_DIR']
+    repo = os.path.realpath(os.environ.get('VERIF_REPO', '/repo'))
+    if repo == os.path.realpath('/repo'):
+        return os.path.join(VERIF, 'evidence')
+    return os.path.join(VERIF, '.cache', 'scratch-evidence', re.sub(r'[^A-Za-z0-9_.-]+', '_', repo))
+
+
 def load_known(prop):
     """KNOWN_FINDINGS.txt lines:
          finding: property=C05 id=<slug> <free text>
@@ -144,7 +156,7 @@ class PropertyRun(object):
             self.violations.append({'kind': 'twin', 'key': key, 'replay': path, 'suffix': ''})
         # ---- evidence
         n_vc = len([o for o in vcs if o.get('kind') in ('goal', 'cover')])
-        n_dis = len([o for o in vcs if o['status'] in ('discharged', 'known')])
+        n_dis = len([o for o in vcs if o.get('kind') in ('goal', 'cover') and o['status'] in ('discharged', 'known')])
         n_named = len(named)
         n_named_dis = len([1 for o in named.values() if o['status'] == 'discharged'])
         by_backend = {}
@@ -200,9 +212,11 @@ class PropertyRun(object):
             'assumptions': trusted, 'wall_s': round(time.time() - self.t0, 2),
             'violations': len(self.violations),
         }
-        os.makedirs(os.path.join(VERIF, 'evidence'), exist_ok=True)
-        with open(os.path.join(VERIF, 'evidence', self.prop + '.json'), 'w') as f:
+        os.makedirs(evidence_dir(), exist_ok=True)
+        tmp = os.path.join(evidence_dir(), '.%s.json.%d' % (self.prop, os.getpid()))
+        with open(tmp, 'w') as f:
             json.dump(ev, f, indent=1, default=repr)
+        os.replace(tmp, os.path.join(evidence_dir(), self.prop + '.json'))
         self.named = named
         # ---- output
         print('%s: %d VCs (%d discharged), %d named obligations (%d discharged, %d undecided, %d failed); '
